@@ -18,7 +18,7 @@ EXPLANATION = (
     "energy or buffer is negative, exactly the reactant and product populations are consumed from the stack, there is "
     "one molecule record per individual afterwards and the records that were not part of the reaction stay at the "
     "index of their individual (identity tracked through each record's hit counter). K4: none of the updates "
-    "re-acquires a state type whose guard it still holds. NOT decided: conservation as an arithmetic identity over "
+    "re-acquires a state type whose guard it still holds. (INIT) init() evaluated with every field of self a distinct symbol inserts exactly the state types of a reviewed table, under the component's own instantiation, each built from exactly the documented field or empty / zero. NOT decided: conservation as an arithmetic identity over "
     "arbitrary floats (only at the sampled configurations), the reaction-selection criteria's probabilities.")
 ASSUMPTIONS = ["random draws lie in their documented ranges (representatives 0.25 / 0.5 are used)"]
 
@@ -138,6 +138,7 @@ def r2_stack_effect(ctx):
 
 
 def run(ctx):
+    ctx.guard("C20.INIT", "init installs the configured state", lambda: __import__("initspec").check_for(ctx, "C20"))
     ctx.guard("C20.K17", "constructor fidelity", lambda: __import__("ctor").check_for(ctx, "C20", 11))
     ctx.guard("C20.R2", "stack effect", lambda: r2_stack_effect(ctx))
     ctx.guard("C20.R1", "updates", lambda: r1_updates(ctx))
